@@ -110,6 +110,18 @@ int main(){
                     std::cout << "ok\n";
                 }catch(const std::exception& ex){ std::cout << "err " << exc_name(ex) << "\n"; }
             }
+            else if(w[0] == "scores" && c){
+                // the real get_triangle_score of every used face: quality score and the longest edge it names
+                local_mesh_refiner lmr(1.0, 2.0, true);
+                std::ostringstream o; o << "S";
+                const auto& fl = c->get_face_lst();
+                for(size_t k = 0; k < fl.size(); k++){
+                    if(!fl[k].is_used()) continue;
+                    auto [sc, le] = lmr.get_triangle_score(c, fl[k]);
+                    o << " ; " << k << ' ' << to_hex(sc) << ' ' << le.n1() << ' ' << le.n2();
+                }
+                std::cout << o.str() << "\n";
+            }
             else if(w[0] == "rebase" && c){
                 try{ c->rebase(); std::cout << "ok\n"; }
                 catch(const std::exception& ex){ std::cout << "err " << exc_name(ex) << "\n"; }
